@@ -251,13 +251,44 @@ static tainted<long, Sbx> cb_tainted(RS&, tainted<long, Sbx> x)
   return tainted<long, Sbx>(g_cb_value);
 }
 
+// a callback that RETURNS A POINTER into the sandbox, declared with the tainted and with the
+// opaque form: the guest gets the representation of exactly that address
+#ifndef ABI_FOREIGN
+extern "C" {
+long call_cbp(long);
+}
+static uint32_t g_cbp_entry = 0, g_cbp_seen = 0;
+static bool g_cbp_trap = false;
+static int32_t g_call_cbp(int32_t x)
+{
+  uint32_t r = 0xDEADBEEF;
+  g_cbp_trap = !Sbx::call_indirect<uint32_t, int32_t>(g_cbp_entry, &r, x);
+  g_cbp_seen = r;
+  return 0;
+}
+static long g_cbp_off = 0;
+static tainted<int*, Sbx> cbp_tainted(RS&, tainted<long, Sbx>)
+{
+  return g_cbp_off < 0 ? tainted<int*, Sbx>(nullptr) : sb->UNSAFE_accept_pointer(reinterpret_cast<int*>(BASE + g_cbp_off));
+}
+static tainted_opaque<int*, Sbx> cbp_opaque(RS&, tainted_opaque<long, Sbx>)
+{
+  tainted<int*, Sbx> t = g_cbp_off < 0 ? tainted<int*, Sbx>(nullptr) : sb->UNSAFE_accept_pointer(reinterpret_cast<int*>(BASE + g_cbp_off));
+  return t.to_opaque();
+}
+#endif
+
 int main(int argc, char** argv)
 {
   if (argc < 3 || !out.open(argv[1])) {
     return 2;
   }
   std::mt19937_64 rng(std::atoll(argv[2]));
+#ifndef ABI_FOREIGN
+  static vm_library lib = { 1, { { "call_cb", (void*)&g_call_cb }, { "echo2", (void*)&g_echo2 }, { "call_cbp", (void*)&g_call_cbp } } };
+#else
   static vm_library lib = { 1, { { "call_cb", (void*)&g_call_cb }, { "echo2", (void*)&g_echo2 } } };
+#endif
   RS sandbox, other;
   other.create_sandbox(&lib);
   sandbox.create_sandbox(&lib);
@@ -334,6 +365,30 @@ int main(int argc, char** argv)
   }
   // opaque vs tainted through the boundary (the guest side below is written for wasm32)
 #ifndef ABI_FOREIGN
+  for (long off : { -1L, 8L, 128L, 4092L }) {
+    for (int variant = 0; variant < 2; variant++) {
+      g_cbp_off = off;
+      g_cbp_seen = 0xDEADBEEF;
+      const char* outc = "ok";
+      try {
+        if (variant == 0) {
+          auto cb = sb->register_callback(cbp_tainted);
+          g_cbp_entry = (uint32_t)cb.UNSAFE_sandboxed(*sb);
+          sb->invoke_sandbox_function(call_cbp, 1L);
+        } else {
+          auto cb = sb->register_callback(cbp_opaque);
+          g_cbp_entry = (uint32_t)cb.UNSAFE_sandboxed(*sb);
+          sb->invoke_sandbox_function(call_cbp, 1L);
+        }
+      } catch (const std::runtime_error&) {
+        outc = "abort";
+      }
+      tr::Ev e("cbptr");
+      e.str("form", variant == 0 ? "tainted" : "opaque").str("out", g_cbp_trap ? "trap" : outc);
+      e.wide("want", off < 0 ? 0 : off).wide("guest_saw", (W)g_cbp_seen);
+      out.put(e);
+    }
+  }
   for (long v : { 0L, 1L, -1L, 2147483647L, -2147483648L, 2147483648L, -2147483649L, 70000L }) {
     for (int variant = 0; variant < 2; variant++) {
       g_cb_value = v;
